@@ -149,8 +149,10 @@ def generate(rng, seed, run, tier, focus='C11', xmode=False):
             suf = natural
             if rng.random() < 0.3:
                 suf = rng.choice([suf.upper(), suf.title(), suf[:2] + suf[2:].upper()])
-        else:
+        elif rng.random() < 0.5:
             suf = '.x'
+        else:
+            suf = rng.choice(['.txt', '.cxt', '.csv', '.py', '.dat', '.json'])   # misleading: explicit frmat must win
         return base + suf
 
     def live(node=None, kind=None):
@@ -881,10 +883,14 @@ class Storage:
             kwargs['dialect'] = f['kwargs']['dialect']
         if via in ('load_csv', 'load_cxt') and via[5:] != frmat:
             via = 'fromfile'
+        explicit = None
         if via == 'load':
             suffix = os.path.splitext(target)[1].lower()
-            if SUFFIX[frmat] != suffix or kwargs:
+            if kwargs:
                 via = 'fromfile'
+            elif SUFFIX[frmat] != suffix:
+                explicit = frmat          # load(path, frmat=...) with a neutral or misleading suffix
+                rec.probe('explicit_format_beats_suffix')
             else:
                 rec.probe('format_inferred_from_suffix')
                 if os.path.splitext(target)[1] != suffix:
@@ -896,6 +902,8 @@ class Storage:
                'pathkind': 'pathlike' if (len(target) + len(dst)) % 2 else 'str'}
         if via in ('fromfile', 'definition'):
             cmd['frmat'] = frmat
+        elif explicit:
+            cmd['frmat'] = explicit
         r = self.send(node, cmd)
         oracle = 'C12.lib_roundtrip' if f.get('writer') == 'lib' else 'C12.lib_reads_ref'
         rec.check(oracle, r['ok'], lambda: f'{via}({target}, {frmat}, {f["enc"]}) raised {r}; labels={self.labels[f["li"]]!r}')
